@@ -251,12 +251,24 @@ out = []
 pts = [P.parse(s) for s in ("2021-03-15T11:55:05+13:45", "2021-03-14T22:10:05Z", "2021-03-14T17:10:05-05:00",
                             "2000-12-31T24:00:00Z", "2001-01-01T00:00:00Z", "2004-W53-7T23:00:00-01:00", "2005-01-03T00:00:00Z")]
 fmts = ["%F %X %z", "%Y-%jT%H:%M", "%s %d/%m", "%H%M%S%z"]
-for f in fmts:
-    for p in pts:                       # equal instants in different offsets, one after the other
-        out.append([f, str(p), p.strftime(f)])
-for f in fmts:
-    for p in reversed(pts):
-        out.append([f, str(p), p.strftime(f)])
+full = ["%F %X %z", "%Y-%m-%dT%H:%M:%S%z", "%FT%X%z", "%s"]
+def fmt_all(order):
+    for f in fmts:
+        for p in order:                     # equal instants in different offsets, one after the other
+            out.append(["strftime", f, str(p), p.strftime(f)])
+def parse_all():
+    for f in full:                          # reading text back, between the formatting rounds
+        for p in pts[:3]:
+            t = p.strftime(f)
+            out.append(["strftime", f, str(p), t])
+            try:
+                out.append(["strptime", f, t, str(P.strptime(t, f))])
+            except Exception as exc:
+                out.append(["strptime", f, t, "raised " + type(exc).__name__])
+fmt_all(pts)
+parse_all()
+fmt_all(list(reversed(pts)))
+parse_all()
 print(json.dumps(out))
 """
 
@@ -269,36 +281,42 @@ def _seq(repo=None):
     return json.loads(p.stdout.strip().splitlines()[-1]) if p.returncode == 0 else None
 
 
-def _single(fmt, text):
+def _single(op, fmt, text):
+    """the same single call in a fresh process"""
     import json, os, subprocess, sys
     repo = os.environ.get("VERIF_REPO", "/repo")
-    code = ("import sys; from metomi.isodatetime.parsers import TimePointParser; "
-            "print(TimePointParser(assumed_time_zone=(0,0)).parse(sys.argv[2]).strftime(sys.argv[1]))")
-    p = subprocess.run([sys.executable, "-c", code, fmt, text], capture_output=True, text=True, env=dict(os.environ, PYTHONPATH=repo),
+    code = ("import sys; from metomi.isodatetime.parsers import TimePointParser\n"
+            "P = TimePointParser(assumed_time_zone=(0,0))\n"
+            "try:\n"
+            "    print(P.parse(sys.argv[3]).strftime(sys.argv[2]) if sys.argv[1] == 'strftime' else P.strptime(sys.argv[3], sys.argv[2]))\n"
+            "except Exception as exc:\n"
+            "    print('raised ' + type(exc).__name__)\n")
+    p = subprocess.run([sys.executable, "-c", code, op, fmt, text], capture_output=True, text=True, env=dict(os.environ, PYTHONPATH=repo),
                        cwd=repo, timeout=60)
     return p.stdout.rstrip("\n") if p.returncode == 0 else None
 
 
 def job_sequence(ctx):
     """concrete supplement: formatting several equal instants held in different offsets / forms one after the other in
-    one process gives, for each, what a fresh process gives (no state carried between calls)"""
+    one process, with strptime calls in between, gives for each call what a fresh process gives (no state carried
+    between calls)"""
     res = new_result("sequence[concrete]")
     seq = _seq()
     if seq is None:
         res["error"] = "sequence driver failed"
         return res
     memo = {}
-    for fmt, text, got in seq:
+    for op, fmt, text, got in seq:
         res["obligations"] += 1
         res["paths"] += 1
-        if (fmt, text) not in memo:
-            memo[(fmt, text)] = _single(fmt, text)
-        if got == memo[(fmt, text)]:
+        if (op, fmt, text) not in memo:
+            memo[(op, fmt, text)] = _single(op, fmt, text)
+        if got == memo[(op, fmt, text)]:
             res["discharged"] += 1
             res["trivially"] += 1
         elif len(res["candidates"]) < 3:
-            res["candidates"].append({"label": "strftime result independent of earlier calls", "how": "concrete",
-                                      "case": {"check": "sequence", "mode": "gregorian", "fmt": fmt, "text": text}})
+            res["candidates"].append({"label": "%s result independent of earlier calls" % op, "how": "concrete",
+                                      "case": {"check": "sequence", "mode": "gregorian", "op": op, "fmt": fmt, "text": text}})
     res["nontrivial_paths"] = res["paths"]
     res["scenarios"]["call sequences"] = {"calls": len(seq)}
     res["notes"].append("concrete sequence in one process vs fresh processes; not a solver verdict")
@@ -370,11 +388,13 @@ def replay(case, M_):
         k = case["check"]
         if k == "sequence":
             seq = _seq()
-            for fmt, text, got in seq or []:
-                if fmt == case["fmt"] and text == case["text"]:
-                    want = _single(fmt, text)
+            cop = case.get("op", "strftime")
+            for op, fmt, text, got in seq or []:
+                if op == cop and fmt == case["fmt"] and text == case["text"]:
+                    want = _single(op, fmt, text)
                     if got != want:
-                        return True, "in a sequence of calls, %s .strftime(%r) = %r; a fresh process gives %r" % (text, fmt, got, want)
+                        return True, "in a sequence of strftime / strptime calls, %s of %r with %r gives %r; a fresh process gives %r" % (
+                            op, text, fmt, got, want)
             return False, "sequence ok"
         if k == "unsupported":
             p = data.TimePoint(year=2004, month_of_year=2, day_of_month=29)
